@@ -3688,6 +3688,30 @@ let rec live_ok num_regs code live pc lin =
                    (reg_mask num_regs)) l)
          (live_ok num_regs rest lrest (Z.add pc (Zpos XH)) lin))
 
+(** val fwd_valid : z -> binstr list -> z -> arr -> bool **)
+
+let rec fwd_valid full code pc inn =
+  match code with
+  | [] -> true
+  | i :: rest ->
+    (&&)
+      (forallb (fun s ->
+        bset_sub (aget inn full s) (Z.coq_lor (aget inn full pc) (defs i)))
+        (succs pc i)) (fwd_valid full rest (Z.add pc (Zpos XH)) inn)
+
+(** val bwd_valid : binstr list -> z -> arr -> bool **)
+
+let rec bwd_valid code pc lin =
+  match code with
+  | [] -> true
+  | i :: rest ->
+    let out =
+      fold_left (fun acc s -> Z.coq_lor acc (aget lin Z0 s)) (succs pc i) Z0
+    in
+    (&&)
+      (bset_sub (Z.coq_lor (uses i) (Z.coq_land out (Z.lnot (defs i))))
+        (aget lin Z0 pc)) (bwd_valid rest (Z.add pc (Zpos XH)) lin)
+
 (** val bc_wf : z -> bool -> bprog -> bool **)
 
 let bc_wf num_regs fuse p =
@@ -3703,10 +3727,14 @@ let bc_wf num_regs fuse p =
             (Z.leb Z0 p.bp_temps)) (Nat.eqb (length p.bp_live) (length code)))
         (all_instr_ok p fuse len Z0 code))
       (match fwd_fix fuel full code (aset PositiveMap.empty Z0 Z0) with
-       | Some inn -> uses_defined full code Z0 inn
+       | Some inn ->
+         (&&)
+           ((&&) (Z.eqb (aget inn full Z0) Z0) (fwd_valid full code Z0 inn))
+           (uses_defined full code Z0 inn)
        | None -> false))
     (match bwd_fix fuel code PositiveMap.empty with
-     | Some lin -> live_ok num_regs code p.bp_live Z0 lin
+     | Some lin ->
+       (&&) (bwd_valid code Z0 lin) (live_ok num_regs code p.bp_live Z0 lin)
      | None -> false)
 
 (** val bc_wf_why : z -> bool -> bprog -> z **)
@@ -3726,14 +3754,21 @@ let bc_wf_why num_regs fuse p =
             then Zpos XH
             else (match fwd_fix fuel full code (aset PositiveMap.empty Z0 Z0) with
                   | Some inn ->
-                    if negb (uses_defined full code Z0 inn)
-                    then Zpos (XO (XO XH))
-                    else (match bwd_fix fuel code PositiveMap.empty with
-                          | Some lin ->
-                            if live_ok num_regs code p.bp_live Z0 lin
-                            then Z0
-                            else Zpos (XI (XO XH))
-                          | None -> Zpos (XO (XI (XO (XO (XI XH))))))
+                    if negb
+                         ((&&) (Z.eqb (aget inn full Z0) Z0)
+                           (fwd_valid full code Z0 inn))
+                    then Zpos (XI (XO (XO (XI (XO XH)))))
+                    else if negb (uses_defined full code Z0 inn)
+                         then Zpos (XO (XO XH))
+                         else (match bwd_fix fuel code PositiveMap.empty with
+                               | Some lin ->
+                                 if negb (bwd_valid code Z0 lin)
+                                 then Zpos (XI (XI (XO (XO (XI XH)))))
+                                 else if live_ok num_regs code p.bp_live Z0
+                                           lin
+                                      then Z0
+                                      else Zpos (XI (XO XH))
+                               | None -> Zpos (XO (XI (XO (XO (XI XH))))))
                   | None -> Zpos (XO (XO (XO (XI (XO XH))))))
 
 type kind =
